@@ -176,6 +176,7 @@ func checkURL(rec *stats.Recorder, c urlCase) (msg string, known string) {
 	if err != nil {
 		return "", "" // not a base URL a resolver could return; generator does not produce these
 	}
+	baseBefore := base.String()
 	cl := &restli.Client{Client: http.DefaultClient, HostnameResolver: resolver{base}}
 	rp := restli.ResourcePathString(c.resourcePath())
 	var q restli.QueryParamsEncoder
@@ -250,6 +251,25 @@ func checkURL(rec *stats.Recorder, c urlCase) (msg string, known string) {
 	}
 	if u.Fragment != "" || u.User != nil {
 		return fail("unexpected fragment/userinfo in %q", u.String())
+	}
+	// resolvers hand out one long-lived URL object for every query (SimpleHostnameResolver, D2): a second request
+	// through the same client, to another root resource, must again be base + resource path
+	c2 := c
+	c2.Root, c2.Rest, c2.HasQuery, c2.Query = "zz9", []string{"7"}, false, ""
+	var req2 *http.Request
+	if p, pv, st := hx.Try(func() {
+		req2, err = restli.NewGetRequest(cl, context.Background(), restli.ResourcePathString(c2.resourcePath()), nil, restli.Method_get)
+	}); p {
+		return fmt.Sprintf("request construction panicked on the second request: %v\n%s", pv, st), ""
+	}
+	if err != nil {
+		return fail("second request through the same client failed: %v", err)
+	}
+	if want2, _ := modelURL(c2); req2.URL.EscapedPath() != want2 || req2.URL.Host != c.Host || req2.URL.Scheme != c.Scheme {
+		return fail("a second request through the same client (to /zz9/7) went to %q, want %s://%s%s: the first request changed the resolver's base", req2.URL.String(), c.Scheme, c.Host, want2)
+	}
+	if base.String() != baseBefore {
+		return fail("the resolver's base URL object was modified: %q -> %q", baseBefore, base.String())
 	}
 	return "", ""
 }
